@@ -223,6 +223,22 @@ x 240116#KV done in jazz
 }
 
 
+def long_page_corpus() -> dict:
+    """ONE page with 1100 notes (a journal kept for years) and a small page whose notes link to
+    it: a filter that has to enumerate the notes of the linked page meets more than 1000 of them."""
+    from mc.models import zid_model as ZM
+
+    lines = ["# Long journal", ""]
+    for k, sfx in enumerate(ZM.all_suffixes()):
+        if k == 1100:
+            break
+        lines.append(f"- 240601#{sfx} entry number{k}" + (" ID::gid7" if k == 7 else ""))
+    other = ["# Other", "", "- 240602#A1 links to the page [[long]]", "- 240602#A2 links to an anchor [[long#a]]",
+             "- 240602#A3 links to a note of it [240601#0B]", "- 240602#A4 links to its ID [#gid7]",
+             "- 240602#A5 links elsewhere [[other]]", "o 240602#A6 no link"]
+    return {"long.zo": "\n".join(lines) + "\n", "other.zo": "\n".join(other) + "\n"}
+
+
 def big_corpus() -> dict:
     """600 notes on three pages; 520 of them contain the word 'Widget' (more than any
     list-size limit a query layer may have in mind), 80 contain 'gadget' only."""
